@@ -2,16 +2,18 @@
 # tools/regress_seeded.sh [all] [id...] — re-run the owning check (or, with "all", every check) against
 # every seeded change under /verif/seeded in isolation (tools/try_seed.sh) and print one line per change:
 #   <id> owner=<Cxx> rc=<0|1|2> [other checks that fired]
-# Scratch copies live under /tmp/seeded-regress and /tmp/mt and are removed afterwards.
+# Scratch copies live under ${REGRESS_DIR:-/tmp/seeded-regress} and /tmp/mt and are removed afterwards
+# (several lanes can run side by side with their own REGRESS_DIR and MT_TARGET).
 MODE=owner; [ "$1" = all ] && { MODE=all; shift; }
 IDS="$@"; [ -n "$IDS" ] || IDS=$(ls /verif/seeded)
-mkdir -p /tmp/seeded-regress
+REG=${REGRESS_DIR:-/tmp/seeded-regress}
+mkdir -p $REG
 for id in $IDS; do
-  rm -rf /tmp/seeded-regress/$id; cp -r /verif/seeded/$id /tmp/seeded-regress/$id; rm -f /tmp/seeded-regress/$id/detect.txt
+  rm -rf $REG/$id; cp -r /verif/seeded/$id $REG/$id; rm -f $REG/$id/detect.txt
   owner=${id%%-*}
-  if [ $MODE = all ]; then out=$(/verif/tools/try_seed.sh /tmp/seeded-regress/$id 2>&1); else out=$(/verif/tools/try_seed.sh /tmp/seeded-regress/$id $owner 2>&1); fi
+  if [ $MODE = all ]; then out=$(/verif/tools/try_seed.sh $REG/$id 2>&1); else out=$(/verif/tools/try_seed.sh $REG/$id $owner 2>&1); fi
   rc=$(echo "$out" | grep -E "^$owner rc=" | sed 's/.*rc=\([0-9]*\).*/\1/')
   others=$(echo "$out" | grep -E "^C[0-9]+ rc=1" | grep -v "^$owner " | cut -d' ' -f1 | tr '\n' ' ')
   echo "$id owner=$owner rc=${rc:-?} others=[$others]"
 done
-rm -rf /tmp/seeded-regress
+rm -rf $REG
